@@ -611,6 +611,7 @@ func runC12(c *Ctx) {
 	c.timeoutRule()
 	c.timeoutCapture(onActive)
 	c.consumedOnlyIfCompleted("S.consumed")
+	c.noLingeringWriteDeadline("S.write-deadline")
 	R.Require("E6.predicate", 6, "")
 	R.Require("E3.field", 5, "")
 	R.Require("E3.command", 2, "")
@@ -974,4 +975,90 @@ func sameValue(a, b ssa.Value) bool {
 		fa, fb = na, nb
 	}
 	return false
+}
+
+// noLingeringWriteDeadline: a deadline set on a net.Conn stays in force for every later write. A write deadline
+// installed for one command and not cleared makes, once it has passed, every later write on the connection fail: the
+// replies to ordinary terminal traffic and the commands that carry no timeout. Every installation of a write deadline
+// (SetWriteDeadline / SetDeadline with a value other than the zero time) in the service package must be followed, on
+// every path to a return of that function, by a call that clears it (the zero time).
+func (c *Ctx) noLingeringWriteDeadline(rule string) {
+	R := c.R
+	R.Rules[rule] = "every call in the service package that installs a write deadline on a connection (SetWriteDeadline / SetDeadline with a non-zero time) is followed on every path to a return of the function by a call that clears it (zero time): no command leaves a deadline behind that fails the replies and commands written after it"
+	isDeadline := func(ins ssa.Instruction) (set bool, clears bool) {
+		ci, ok := ins.(ssa.CallInstruction)
+		if !ok {
+			return false, false
+		}
+		cc := ci.Common()
+		name := ""
+		var arg ssa.Value
+		if cc.IsInvoke() {
+			name = cc.Method.Name()
+			if len(cc.Args) > 0 {
+				arg = cc.Args[0]
+			}
+		} else if sc := cc.StaticCallee(); sc != nil && sc.Pkg != nil && sc.Pkg.Pkg.Path() == "net" {
+			name = sc.Name()
+			if len(cc.Args) > 1 {
+				arg = cc.Args[1]
+			}
+		}
+		if name != "SetWriteDeadline" && name != "SetDeadline" {
+			return false, false
+		}
+		if cv, isC := arg.(*ssa.Const); isC && cv.Value == nil {
+			return true, true
+		}
+		return true, false
+	}
+	n, nBad := 0, 0
+	for _, fn := range c.RepoFuncs("service") {
+		for _, b := range fn.Blocks {
+			for i, ins := range b.Instrs {
+				set, clears := isDeadline(ins)
+				if !set || clears {
+					continue
+				}
+				n++
+				bad := ""
+				seen := map[*ssa.BasicBlock]bool{}
+				var walk func(blk *ssa.BasicBlock, from int)
+				walk = func(blk *ssa.BasicBlock, from int) {
+					if bad != "" {
+						return
+					}
+					for _, i2 := range blk.Instrs[from:] {
+						if s2, c2 := isDeadline(i2); s2 && c2 {
+							return
+						}
+					}
+					if ret, isR := blk.Instrs[len(blk.Instrs)-1].(*ssa.Return); isR {
+						bad = c.P.RelPos(ret.Pos())
+						if bad == "" || bad == "?" {
+							bad = "the end of " + shortFn(fn)
+						}
+						return
+					}
+					for _, sb := range blk.Succs {
+						if !seen[sb] {
+							seen[sb] = true
+							walk(sb, 0)
+						}
+					}
+				}
+				walk(b, i+1)
+				st, d := report.Discharged, ""
+				if bad != "" {
+					nBad++
+					st, d = report.Violated, fmt.Sprintf("the write deadline installed here is still in force at %s: once it has passed every later write on this connection fails - replies to terminal traffic are not sent and commands without a timeout are never written", bad)
+				}
+				R.Add(rule, shortFn(fn)+" / "+c.constructOf(fn, ins), c.P.RelPos(ins.Pos()), st, d)
+			}
+		}
+	}
+	if n == 0 {
+		R.Add(rule, "service / no write deadline is installed anywhere (all non-test functions of the package examined)", "", report.Discharged, "")
+	}
+	R.Notes["write_deadline_installations"] = n
 }
